@@ -2,6 +2,8 @@
 From Coq.Strings Require Import Byte String.
 From Coq Require Import List NArith Bool.
 Import ListNotations.
+(* the generator model first, so that the C04 models' short names win; its definitions are used qualified *)
+From V Require Import lib.Sexp model.Ast model.Gen model.SourceMap.
 From V Require Import lib.Bytes model.Url model.Escape spec.Whatwg spec.HtmlTok spec.HtmlRefs spec.HtmlEntities spec.UrlSink.
 Require Extraction.
 Require Import ExtrOcamlBasic.
@@ -59,6 +61,15 @@ Definition dispatch (f : bytes) (a : list bytes) : list bytes :=
     end
   else if is f "decode_attr" then [decode_attr (arg 0 a)]
   else if is f "entities" then flat_pairs html5_entities
+  else if is f "gen" then
+    (* the generator model on a parsed template file (same request as extract/X07.v).
+       args: file name, AST wire.  reply: status, code, source map dump, literals (joined by LF) *)
+    match Sexp.parse_all (arg 1 a) with
+    | Some x => match Ast.dfile x with
+                | Some fl => let '(code, lits, sm) := SourceMap.generate_all (arg 0 a) fl in
+                             [bs "ok"; code; sm; Gen.join_with [x0a] lits]
+                | None => [bs "decode-ast"] end
+    | None => [bs "decode-sexp"] end
   else [bs "?"].
 
 Extraction "model.ml" dispatch.
